@@ -29,6 +29,7 @@ func Now() time.Time {
 		return time.Now()
 	}
 	y("Clock", nil, nil)
+	note("Clock", nil, 0)
 	return time.Unix(0, atomic.LoadInt64(&nowNs))
 }
 func Until(t time.Time) time.Duration { return t.Sub(Now()) }
@@ -58,12 +59,37 @@ type Ev struct {
 // Hook, when non-nil, is called before every action; it returns when the caller may perform it.
 var Hook func(*Ev)
 
+// noYield > 0: the running thread is inside an atomic section (one step of a coarser-grained model): no
+// scheduling point and no trace note until it ends.  Only one scheduled thread runs at a time.
+var noYield int32
+
+// Atomic runs f as one indivisible step of the calling thread.
+func Atomic(f func()) {
+	noYield++
+	defer func() { noYield-- }()
+	f()
+}
+
+// Unatomic runs f (a user callback invoked from inside an atomic section) with scheduling re-enabled.
+func Unatomic(f func()) {
+	n := noYield
+	noYield = 0
+	defer func() { noYield = n }()
+	f()
+}
+
 func y(kind string, addr unsafe.Pointer, blocked func() bool) {
+	if noYield > 0 {
+		return
+	}
 	if h := Hook; h != nil {
 		h(&Ev{Kind: kind, Addr: addr, Blocked: blocked})
 	}
 }
 func ya(kind string, addr unsafe.Pointer, arg uint64) {
+	if noYield > 0 {
+		return
+	}
 	if h := Hook; h != nil {
 		h(&Ev{Kind: kind, Addr: addr, Arg: arg})
 	}
@@ -74,6 +100,9 @@ func ya(kind string, addr unsafe.Pointer, arg uint64) {
 var Trace func(kind string, addr unsafe.Pointer, arg uint64)
 
 func note(kind string, addr unsafe.Pointer, arg uint64) {
+	if noYield > 0 {
+		return
+	}
 	if t := Trace; t != nil {
 		t(kind, addr, arg)
 	}
@@ -222,8 +251,16 @@ func (c *Cond) Signal() {
 // Value replaces atomic.Value.
 type Value struct{ v atomic.Value }
 
-func (v *Value) Load() interface{}   { y("ValueLoad", unsafe.Pointer(v), nil); return v.v.Load() }
-func (v *Value) Store(x interface{}) { y("ValueStore", unsafe.Pointer(v), nil); v.v.Store(x) }
+func (v *Value) Load() interface{} {
+	y("ValueLoad", unsafe.Pointer(v), nil)
+	note("ValueLoad", unsafe.Pointer(v), 0)
+	return v.v.Load()
+}
+func (v *Value) Store(x interface{}) {
+	y("ValueStore", unsafe.Pointer(v), nil)
+	note("ValueStore", unsafe.Pointer(v), 0)
+	v.v.Store(x)
+}
 
 // ---- deterministic table seeds (sched mode rewrites makeSeed to call this) ---------------------
 
